@@ -106,6 +106,82 @@ Section Proofs.
     destruct (stub_consistent r) eqn:Cr; [|now right].
     exfalso. apply H. now apply binop_diag_iff_typeerror_partial.
   Qed.
+  (* ---- augmented assignment ---- *)
+  Lemma pa_aug_diag_iff : forall i l r,
+    pa_aug i l r = VDiag <-> side_errors i = true /\ pa_binop l r = VDiag.
+  Proof.
+    intros i l r. unfold pa_aug. pose proof (side_result_not_diag i) as Hi.
+    destruct (side_errors i); split; intros H.
+    - split; [reflexivity|exact H].
+    - exact (proj2 H).
+    - exfalso. exact (Hi H).
+    - destruct H as [H _]. discriminate H.
+  Qed.
+
+  Lemma py_aug_typeerror_iff : forall si rp i l r,
+    py_aug si rp i l r = PTypeError <->
+    (s_exists i && is_raisetype (s_out i) = true) \/
+    (negb (s_exists i) || is_notimpl (s_out i) = true /\ py_binop si rp l r = PTypeError).
+  Proof.
+    intros si rp [e g a o] l r. unfold py_aug, try_side. cbn.
+    destruct e, o; cbn; split; intros H; try discriminate; try tauto;
+      try (destruct H as [H|[H _]]; discriminate); auto;
+      (destruct H as [H|[_ H]]; [discriminate|exact H]).
+  Qed.
+
+  Lemma aug_core : forall (i : side O) (Q : Prop) (F : bool),
+    (Q <-> F = true) ->
+    (s_exists i && is_raisetype (s_out i) && negb F) = false ->
+    (fails i = true /\ Q <->
+     (s_exists i && is_raisetype (s_out i) = true) \/ (negb (s_exists i) || is_notimpl (s_out i) = true /\ Q)).
+  Proof.
+    intros [e g a o] Q F HF GI. unfold fails. cbn in *.
+    destruct e, o; cbn in *; try tauto; destruct F; cbn in *; try discriminate; tauto.
+  Qed.
+
+  Theorem aug_diag_iff_typeerror_partial : forall si rp i l r,
+    stub_consistent i = true -> stub_consistent l = true -> stub_consistent r = true ->
+    aug_guard si rp i l r = true ->
+    (pa_aug i l r = VDiag <-> py_aug si rp i l r = PTypeError).
+  Proof.
+    intros si rp i l r Ci Cl Cr G. unfold aug_guard in G. apply andb_true_iff in G. destruct G as [GB GI].
+    pose proof (binop_diag_iff_typeerror_partial si rp l r Cl Cr GB) as HB.
+    pose proof (py_binop_typeerror_iff si rp l r GB) as HF.
+    rewrite pa_aug_diag_iff, py_aug_typeerror_iff, (side_errors_fails _ Ci), HB.
+    apply (aug_core i _ (fails l && fails r)).
+    - rewrite HF, andb_true_iff. reflexivity.
+    - unfold inplace_raises_binop_ok in GI. now apply negb_true_iff in GI.
+  Qed.
+
+  Theorem aug_literal_correct : forall si rp i l r v,
+    stub_consistent i = true -> stub_consistent l = true -> stub_consistent r = true ->
+    aug_guard si rp i l r = true -> subclass_priority rp l r = false ->
+    pa_aug i l r = VLit v -> py_aug si rp i l r = PVal v.
+  Proof.
+    intros si rp i l r v Ci Cl Cr G SP H. unfold aug_guard in G. apply andb_true_iff in G. destruct G as [GB GI].
+    unfold pa_aug in H. rewrite (side_errors_fails _ Ci) in H.
+    unfold inplace_raises_binop_ok in GI. apply negb_true_iff in GI.
+    destruct (fails i) eqn:Fi.
+    - pose proof (binop_literal_correct si rp l r v Cl Cr GB SP H) as HB.
+      unfold py_aug, try_side. destruct i as [e g a o]. unfold fails in Fi. cbn in *.
+      destruct e; [|exact HB]. destruct o; cbn in *; try discriminate Fi; try exact HB.
+      (* the in-place method raises TypeError: by the guard the binary operator fails on both sides *)
+      exfalso. destruct (fails l && fails r) eqn:F; [|discriminate GI].
+      apply andb_true_iff in F.
+      pose proof (pa_binop_diag_iff l r) as D. rewrite (side_errors_fails _ Cl), (side_errors_fails _ Cr) in D.
+      rewrite (proj2 D F) in H. discriminate H.
+    - unfold py_aug, try_side. destruct i as [e g a o]. unfold fails in Fi. unfold side_result in H. cbn in *.
+      destruct e; [|discriminate Fi]. destruct o; cbn in *; try discriminate Fi.
+      + inversion H; reflexivity.
+      + destruct a; discriminate H.
+  Qed.
+
+  Theorem chain_diag_iff : forall (d1 d2 x1 x2 : bool),
+    (d1 = true <-> x1 = true) -> (d2 = true <-> x2 = true) ->
+    (pa_chain d1 d2 = true <-> py_chain_raises x1 x2 = true).
+  Proof.
+    intros d1 d2 x1 x2 H1 H2. unfold pa_chain, py_chain_raises. rewrite !orb_true_iff. tauto.
+  Qed.
 End Proofs.
 
 (* ------------------------------------------------------------------------ *)
@@ -129,6 +205,21 @@ Proof. vm_compute. repeat split. Qed.
 
 Lemma binop_subclass_priority_refuted :
   pa_binop (ok_side 1) (ok_side 2) = VLit 1 /\ py_binop false true (ok_side 1) (ok_side 2) = PVal 2.
+Proof. vm_compute. repeat split. Qed.
+
+(* t op= x where the in-place method raises TypeError itself and the binary operator works *)
+Lemma aug_inplace_raises_refuted :
+  pa_aug raising_side (ok_side 1) missing_side = VLit 1 /\
+  py_aug false false raising_side (ok_side 1) missing_side = PTypeError /\
+  inplace_raises_binop_ok raising_side (ok_side 1) missing_side = true.
+Proof. vm_compute. repeat split. Qed.
+
+Lemma aug_examples :
+  (* no __iadd__ on immutables: the binary operator decides *)
+  pa_aug missing_side notimpl_side (ok_side 3) = VLit 3 /\ py_aug false false missing_side notimpl_side (ok_side 3) = PVal 3 /\
+  pa_aug missing_side notimpl_side notimpl_side = VDiag /\ py_aug false false missing_side notimpl_side notimpl_side = PTypeError /\
+  pa_aug (ok_side 9) notimpl_side notimpl_side = VLit 9 /\ py_aug false false (ok_side 9) notimpl_side notimpl_side = PVal 9 /\
+  aug_guard false false missing_side notimpl_side notimpl_side = true.
 Proof. vm_compute. repeat split. Qed.
 
 (* non-vacuity: the guarded theorems apply to the interesting shapes *)
